@@ -318,7 +318,7 @@ func (vc *VC) ghostPoint(fr *Frame, st *State, reach, when, what string, ordinal
 				continue
 			}
 		}
-		if gp.Ordinal != ordinal {
+		if gp.Ordinal != ordinal && gp.Ordinal != -1 {
 			continue
 		}
 		env := vc.envFor(fr, st)
@@ -690,6 +690,8 @@ func (vc *VC) execCall(fr *Frame, st *State, reach string, instr ssa.Instruction
 		return vc.execBuiltin(fr, st, reach, instr, bi, common, args)
 	}
 	pos := posOf(fr, instr)
+	// #arg0, #arg1, ... name the arguments of the call in its 'before' / 'after' ghost blocks
+	fr.pendingArgs = args
 	// interface method call
 	if common.IsInvoke() {
 		recv := vc.operand(fr, common.Value)
